@@ -10,6 +10,7 @@ use crate::raft::Request;
 use crate::raft::Response;
 use crate::raft::Storage;
 use crate::server_db::ServerDb;
+use crate::server_error::ServerError;
 use crate::server_error::ServerResult;
 use agdb::DbId;
 use agdb::StableHash;
@@ -346,13 +347,12 @@ pub(crate) async fn start_with_shutdown(
 
 pub(crate) struct ClusterStorage {
     result_notifiers: HashMap<DbId, ResultNotifier>,
+    executor: tokio::sync::mpsc::UnboundedSender<(Log<ClusterAction>, Option<ResultNotifier>)>,
     notifier: tokio::sync::broadcast::Sender<u64>,
     index: u64,
     term: u64,
     commit: u64,
-    db: ServerDb,
     cluster_log: ClusterLog,
-    db_pool: DbPool,
 }
 
 impl ClusterStorage {
@@ -360,15 +360,15 @@ impl ClusterStorage {
         let (index, term, commit) = cluster_log.cluster_log().await?;
         let logs = cluster_log.logs_unexecuted(commit).await?;
 
+        let notifier = tokio::sync::broadcast::channel(100).0;
         let mut storage = Self {
             result_notifiers: HashMap::new(),
-            notifier: tokio::sync::broadcast::channel(100).0,
+            executor: Self::start_executor(db, db_pool, cluster_log.clone(), notifier.clone()),
+            notifier,
             index,
             term,
             commit,
-            db,
             cluster_log,
-            db_pool,
         };
 
         for log in logs {
@@ -380,23 +380,37 @@ impl ClusterStorage {
 
     async fn execute_log(&mut self, log: Log<ClusterAction>) -> ServerResult<()> {
         let log_id = log.db_id.unwrap_or_default();
-        let db = self.db.clone();
-        let db_pool = self.db_pool.clone();
-        let cluster_log = self.cluster_log.clone();
-        let notifier = self.notifier.clone();
         let result_notifier = self.result_notifiers.remove(&log_id);
 
-        tokio::spawn(async move {
-            let result = log.data.exec(db.clone(), db_pool).await;
-            let _ = notifier.send(log.index);
-            let _ = cluster_log.log_executed(log_id).await;
+        // committed logs are executed one at a time in the order they are handed over
+        self.executor
+            .send((log, result_notifier))
+            .map_err(|e| ServerError::new(StatusCode::INTERNAL_SERVER_ERROR, &e.to_string()))
+    }
 
-            if let Some(rs) = result_notifier {
-                let _ = rs.send(result.map(|r| (log.index, r)));
+    fn start_executor(
+        db: ServerDb,
+        db_pool: DbPool,
+        cluster_log: ClusterLog,
+        notifier: tokio::sync::broadcast::Sender<u64>,
+    ) -> tokio::sync::mpsc::UnboundedSender<(Log<ClusterAction>, Option<ResultNotifier>)> {
+        let (executor, mut logs) =
+            tokio::sync::mpsc::unbounded_channel::<(Log<ClusterAction>, Option<ResultNotifier>)>();
+
+        tokio::spawn(async move {
+            while let Some((log, result_notifier)) = logs.recv().await {
+                let log_id = log.db_id.unwrap_or_default();
+                let result = log.data.exec(db.clone(), db_pool.clone()).await;
+                let _ = notifier.send(log.index);
+                let _ = cluster_log.log_executed(log_id).await;
+
+                if let Some(rs) = result_notifier {
+                    let _ = rs.send(result.map(|r| (log.index, r)));
+                }
             }
         });
 
-        Ok(())
+        executor
     }
 
     pub(crate) async fn subscribe(&self) -> tokio::sync::broadcast::Receiver<u64> {
